@@ -1095,8 +1095,10 @@ Section WorldArenas.
       + pose proof (t_extend_arena l t) as H. destruct (t_extend t l) as [t' ok]. cbn [fst snd] in *.
         eapply inplace_intro; [rewrite E; reflexivity|reflexivity|right; exact H].
     - (* NewRodeo *)
+      destruct (isize_max <? cap); [left; reflexivity|].
       cbn [new_slot fst snd]. eapply new_intro; [reflexivity|apply arena_evolves_refl].
     - (* NewThreaded *)
+      destruct (isize_max <? cap); [left; reflexivity|].
       cbn [new_slot fst snd]. eapply new_intro; [reflexivity|apply arena_evolves_refl].
   Qed.
 End WorldArenas.
